@@ -169,6 +169,14 @@ pub fn replay_history(init: &R, hist: &[Act]) -> Result<(Term, R), String> {
         if name != model_name(&m) {
             return Err(format!("{} : get_atom_name() = {:?}, expected {:?}", what(), name, model_name(&m)));
         }
+        // the unchecked accessor agrees wherever the checked one answers
+        if name.is_some() {
+            let t2 = t.clone();
+            let un = quiet_catch(AssertUnwindSafe(move || t2.get_atom_name_unchecked()));
+            if un.as_ref().ok() != name.as_ref() {
+                return Err(format!("{} : get_atom_name_unchecked() = {:?} but get_atom_name() = {:?}", what(), un, name));
+            }
+        }
     }
     Ok((t, m))
 }
